@@ -26,7 +26,7 @@ Proof.
       destruct (mstored_kind _ _ _ _ _ _ _ _ _ HI Eg) as [K|[K|K]].
       * right. intros j Hj F HF. assert (j = ci) by congruence. subst j.
         destruct (mi_kind _ _ _ _ _ _ _ HI n ci Eg) as [(_ & _ & _ & T & _)|(K2 & _)]; [rewrite T in HF; destruct HF|].
-        rewrite K in K2. discriminate.
+        destruct K as [K|K]; rewrite K in K2; discriminate.
       * left. auto.
       * right. intros j Hj F HF. assert (j = ci) by congruence. subst j.
         apply (H2 K). apply (proj1 (nset_eqb_In _ _) Et). exact HF.
